@@ -51,7 +51,7 @@ Oracles (none of them looks at the code under test):
   clause (pixel types int8 / bool / uint8 / float32 per thread, destinations on the same grid / of the same shape on
   another grid / of another shape, different source images, module state of warp.py as imported or after both calls were
   made once); every line of odc/geo/warp.py is a scheduling point, all schedules within preemption bound 2 (thorough: 3
-  for four pairs) are executed.  Oracle: each thread's image equals the image of the same call made alone (computed
+  for the three int8/bool pairs) are executed.  Oracle: each thread's image equals the image of the same call made alone (computed
   once outside the scheduler) and the pasted image.
 """
 from __future__ import annotations
@@ -745,20 +745,25 @@ def gen_threads(tier):
 
     def gen():
         def parts(dta, dtb, rel, prior, bound, n):
-            for k in range(n):
-                yield (dta, dtb, rel, prior, bound, k, n)
+            # the schedule tree of one comparison is cut into 2 * n pieces (which thread starts x the position of the
+            # first pre-emption modulo n), each piece is one case
+            for first in (0, 1):
+                for k in range(n):
+                    yield (dta, dtb, rel, prior, bound, first, k, n)
 
+        detour = (("int8", "int8"), ("bool", "bool"), ("int8", "bool"))
         if not th:
-            # both calls of the same pixel type, and the two detour types against each other
-            pairs = tuple((d, d) for d in THR_DTYPES) + (("int8", "bool"),)
-            for (dta, dtb), rel in itertools.product(pairs, ("same-shape", "other-shape")):
-                yield from parts(dta, dtb, rel, "cold", 2, 4)
+            # both calls of the same pixel type (the two detour types and one that GDAL warps directly), and the two
+            # detour types against each other
+            for (dta, dtb), rel in itertools.product(detour + (("uint8", "uint8"),), ("same-shape", "other-shape")):
+                yield from parts(dta, dtb, rel, "cold", 2, 2)
             return
-        for dta, dtb, rel, prior in itertools.product(THR_DTYPES, THR_DTYPES, THR_RELS, THR_PRIOR):
-            yield from parts(dta, dtb, rel, prior, 2, 4)
-        for (dta, dtb), prior in itertools.product((("int8", "int8"), ("bool", "bool"), ("int8", "bool"), ("uint8", "uint8")),
-                                                   ("cold",)):
-            yield from parts(dta, dtb, "same-shape", prior, 3, 32)
+        for dta, dtb, rel in itertools.product(THR_DTYPES, THR_DTYPES, THR_RELS):
+            yield from parts(dta, dtb, rel, "cold", 2, 2)
+        for (dta, dtb), rel in itertools.product(detour + (("uint8", "uint8"), ("float32", "float32")), THR_RELS):
+            yield from parts(dta, dtb, rel, "warm", 2, 4)
+        for dta, dtb in detour:
+            yield from parts(dta, dtb, "same-shape", "cold", 3, 16)
 
     return gen
 
@@ -788,6 +793,32 @@ def _thr_job(base, dt, turned):
                 desc=describe(case, b, rr) + (" [source raster turned by 180 degrees]" if turned else ""))
 
 
+def _segments(trace):
+    segs = []
+    for t, lb in trace:
+        ln = lb[1] if isinstance(lb, tuple) and len(lb) > 1 else lb
+        if segs and segs[-1][0] == t:
+            segs[-1][2] = ln
+            segs[-1][3] += 1
+        else:
+            segs.append([t, ln, ln, 1])
+    return " | ".join(f"t{t}:{a}..{b}({n})" for t, a, b, n in segs)
+
+
+class _Tail:
+    """view of a finished execution without its first choice point (what vf.sched.explore needs to see in order to explore
+    the subtree below a fixed first choice)"""
+
+    def __init__(self, x):
+        self.full = x
+        self.choices, self.points = x.choices[1:], x.points[1:]
+        self.diverged, self.npoints, self.deadlock, self.trace = x.diverged, x.npoints, x.deadlock, x.trace
+
+
+def _switches(x):
+    return [i for i, c in enumerate(x.choices) if c]
+
+
 def _thr_call(j):
     dst = np.full(j["dshape"], j["junk"], dtype=j["src"].dtype)
     return rio_reproject(j["src"], dst, j["b"]["src_g"], j["b"]["dst_g"], resampling="nearest", dst_nodata=j["nodata"])
@@ -800,7 +831,7 @@ def run_threads(case):
     made alone, and the pasted image."""
     from vf import sched  # pylint: disable=import-outside-toplevel
 
-    dta, dtb, rel, prior, bound, part_k, part_n = case
+    dta, dtb, rel, prior, bound, first, part_k, part_n = case
     jobs = (_thr_job(_THR_A, dta, False), _thr_job(_THR_B[rel], dtb, True))
     pcls = "same-dtype" if dta == dtb else "mixed-dtypes"
     r = R(outcome=f"threads|{pcls}|{rel}|{prior}|bound{bound}", nontrivial=True)
@@ -847,15 +878,23 @@ def run_threads(case):
         s.res = res
         return s
 
+    def make_half(prefix):
+        # the first choice point is "which thread starts" (free of cost): this case explores the half that starts with `first`
+        x = make([first] + list(prefix))
+        assert x.diverged or (x.choices and x.choices[0] == first and x.points[0] == (2, False)), (x.choices[:1], x.points[:1])
+        return _Tail(x)
+
     def check(x):
+        x = x.full
         for name, err in x.errors():
             if not core.in_repo_tb(err):
                 raise err
             fails.setdefault(f"threads:raised:{type(err).__name__}@{core.raise_site(err)}:{pcls}:{rel}",
-                             f"{case}: thread {name}: {type(err).__name__}: {err}; schedule choices {list(x.choices)}")
+                             f"{case}: thread {name}: {type(err).__name__}: {err}; schedule {_segments(x.trace)} (thread:first..last "
+                             f"line of warp.py(number of lines)), choice points with a switch: {_switches(x)}")
         if x.deadlock or x.livelock:
             fails.setdefault(f"threads:{'deadlock' if x.deadlock else 'livelock'}:{pcls}:{rel}",
-                             f"{case}: schedule choices {list(x.choices)}")
+                             f"{case}: schedule {_segments(x.trace)}, choice points with a switch: {_switches(x)}")
             return
         for k, j in enumerate(jobs):
             got = x.res.get(k)
@@ -864,7 +903,8 @@ def run_threads(case):
             dt = j["case"][10]
             if not _same_img(j["src"], j["src0"]):
                 fails.setdefault(f"threads:source-modified:{dt}:{pcls}:{rel}",
-                                 f"{case}: the source array of thread {k} was modified; schedule choices {list(x.choices)}")
+                                 f"{case}: the source array of thread {k} was modified; schedule {_segments(x.trace)}, choice "
+                                 f"points with a switch: {_switches(x)}")
             if _same_img(got, alone[k]) and (j["expect"] is None or _same_img(got, j["expect"])):
                 continue
             o = jobs[1 - k]
@@ -875,14 +915,14 @@ def run_threads(case):
             nbad = int((~((got == alone[k]) | ((got != got) & (alone[k] != alone[k])))).sum()) if got.shape == alone[k].shape else -1
             fails.setdefault(
                 f"threads:paste!=warp:{dt}:other-thread-{o['case'][10]}:{rel}:{prior}",
-                f"two rio_reproject(..., 'nearest') calls in two threads, schedule choices {list(x.choices)} (0 = keep running, "
-                f"1 = switch thread; scheduling points = lines of warp.py, executed (thread, line): "
-                f"{[(t, lb[1]) for t, lb in x.trace if isinstance(lb, tuple)]}): thread {k} got {got.tolist()} where the same "
+                f"two rio_reproject(..., 'nearest') calls in two threads; schedule (thread:first..last line of warp.py(number of "
+                f"lines), switches at the boundaries): {_segments(x.trace)}; choice points with a switch: "
+                f"{_switches(x)}: thread {k} got {got.tolist()} where the same "
                 f"call made alone gives {alone[k].tolist()} (= the pasted image), {nbad} of {got.size} pixels differ{hint}; "
                 f"thread {k}: {j['desc']}; thread {1 - k}: {o['desc']}")
 
     try:
-        st = sched.explore(make, check, bound, part=(part_k, part_n))
+        st = sched.explore(make_half, check, bound, part=(part_k, part_n))
     finally:
         _reset_warp_state()
     r.counts = dict(schedules=st.schedules, transitions=st.points, warps=2 * st.schedules)
@@ -1148,8 +1188,9 @@ NOTES = {
     "warp-threads": "E3a: two threads make the nearest-warp call of the image clause at the same time (own source image, own "
                     "destination): pixel types {int8, bool, uint8, float32} per thread x destinations {same grid, same shape on "
                     "another grid, another shape} x module state {import-time, both calls made before}; every line of warp.py "
-                    "a scheduling point, ALL schedules within preemption bound 2 (quick: equal types + int8/bool, 2 relations, "
-                    "cold; thorough: full product, and bound 3 for 4 same-shape pairs); each thread's image == the same call "
+                    "a scheduling point, ALL schedules within preemption bound 2 (quick: int8/bool/uint8 with itself + int8 with "
+                    "bool, 2 relations, cold; thorough: full cold product, warm for equal types + int8/bool, and bound 3 for "
+                    "the 3 detour pairs on same-shape destinations); each thread's image == the same call "
                     "made alone == the pasted image",
     "shrink": "integer scale 2,3,4 (read_shrink > 1), placements in overview pixels as in paste-image: "
               "roi_src == read_shrink * image(roi_dst)",
@@ -1206,9 +1247,10 @@ def main(ctx):
                          "planner_calls": PLAN_CALLS,
                          "length_2_alphabet": "all calls (thorough); bilinear warp calls + planner calls (quick)"},
         "warp_threads": {"threads": 2, "scheduling_points": "every line event of odc/geo/warp.py (about 50 per call); the GDAL "
-                         "call is one step", "preemption_bound": "2 (quick); 2 for the full product and 3 for 4 same-shape pairs "
-                         "(thorough)", "dtypes_per_thread": THR_DTYPES, "destination_relations": THR_RELS, "module_state": THR_PRIOR,
-                         "case": "(dtype thread 0, dtype thread 1, relation, state, bound, k, n): part k of n of the schedule tree"},
+                         "call is one step", "preemption_bound": "2 (quick); 2 for the full product and 3 for the 3 detour-type pairs on "
+                         "same-shape destinations (thorough)", "dtypes_per_thread": THR_DTYPES, "destination_relations": THR_RELS, "module_state": THR_PRIOR,
+                         "case": "(dtype thread 0, dtype thread 1, relation, state, bound, first, k, n): the schedules in which thread "
+                                 "`first` starts, part k of n (by position of the first pre-emption)"},
         "window_edges": {"f": EDGE_F, "source_axis_px": EDGE_N + (2000,), "placements": PLACES, "other_axis": (OTHER_LEN, 3)},
     }
     ctx.assumptions = [
